@@ -56,7 +56,8 @@ func (e *Engine) VerifyFunc(key string) (res *FnResult) {
 		res.Err = "contract target has no body: " + key
 		return
 	}
-	if ct != nil && ct.Opaque {
+	sweepOnly := ct != nil && ct.Opaque && ct.Sweep
+	if ct != nil && ct.Opaque && !ct.Sweep {
 		// assumed contract: only its structural obligations are checked
 		if _, ok := ct.Attrs["deterministic"]; ok {
 			d := e.deterministic(fn)
@@ -101,6 +102,7 @@ func (e *Engine) VerifyFunc(key string) (res *FnResult) {
 		fr.free = append(fr.free, v)
 		_ = i
 	}
+	c.regexGlobalFacts(st)
 	c.initial = st.clone()
 	env := c.specEnv(fr, st)
 	env.useCells = false
@@ -113,7 +115,9 @@ func (e *Engine) VerifyFunc(key string) (res *FnResult) {
 	st.pc = c.vc.Name("pc", And(reqs...))
 	cov := c.addObl("vacuity", "requires-sat", nil, st, TFalse, nil)
 	cov.Kind = "cover"
-	c.buildFrameSpec(fr, st)
+	if !sweepOnly {
+		c.buildFrameSpec(fr, st)
+	}
 	c.buildGuards(fr, st)
 	c.setupOG(fr, st)
 	c.assertAll(fr)
@@ -173,6 +177,15 @@ func (e *Engine) VerifyFunc(key string) (res *FnResult) {
 		}
 	}
 	res.Obls = c.obls
+	if sweepOnly {
+		// safety sweep of an otherwise assumed contract: only the implicit-panic obligations
+		res.Obls = nil
+		for _, o := range c.obls {
+			if strings.HasPrefix(o.Class, "safe:") || o.Class == "inv-entry" || o.Class == "inv-pres" || o.Class == "assert" || (o.Class == "vacuity" && strings.HasSuffix(o.Name, "requires-sat")) {
+				res.Obls = append(res.Obls, o)
+			}
+		}
+	}
 	res.Decided = append(res.Decided, c.decided...)
 	res.Abstracted = sortedKeys(c.abstracted)
 	res.Assumptions = sortedKeys(c.assumptions)
